@@ -524,8 +524,13 @@ class AbsInt:
                 v = self.lin(st, b.operand)
                 return None if v is None else E - v
             v = self.lin(st, b)
-            if v is not None and v.is_const() and v.c < 0:
-                return E + v.c
+            if v is None:
+                return None
+            if v.is_const():
+                return E + v.c if v.c < 0 else v
+            # symbolic bound: a value that is provably <= -1 on this path is a from-the-end offset
+            if entails(st.G, (-v) - 1):
+                return E + v
             return v
         if sl.step is not None:
             return None
